@@ -60,6 +60,8 @@ type World struct {
 	ncons   map[string]int
 	consult []Consult
 	x       *Exec
+	// rawStamp: dumps show the lock-duration stamp (C10 only)
+	rawStamp bool
 }
 
 func newWorld(x *Exec) *World {
@@ -210,6 +212,11 @@ func (w *World) dump(i int) string {
 		}
 	}
 	s := w.renderState(st, 0)
+	if !w.rawStamp {
+		// the lock-duration stamp is ephemeral bookkeeping, not configuration:
+		// only C10 (which checks WHERE it is written) looks at it
+		s = normStamp(s)
+	}
 	if zero {
 		s = "handle=zero " + s
 	} else if k, inst, _ := stackage.VerifID(o.handle()); k != "" {
